@@ -117,7 +117,21 @@ func (worldS) Gen(r *core.Rand, env *core.Env) SCase {
 	}
 	wid := 0
 	flushes := 0
+	bigAt := -1
+	if (env.Property == "C01" || env.Property == "C02" || env.Property == "C07") && r.Intn(20) == 0 {
+		bigAt = r.Intn(nops) // one write whose log record exceeds 2 MiB compressed
+	}
 	for i := 0; i < nops; i++ {
+		if i == bigAt {
+			wid++
+			op := SOp{K: "w", ID: wid}
+			n := r.Range(130, 220)
+			for j := 0; j < n; j++ {
+				op.Rows = append(op.Rows, SRow{M: r.Intn(c.NMst), S: r.Intn(c.NSeries), T: r.Intn(sNumTimes), F: 8 | r.Intn(16), P: r.Range(16, 24)})
+			}
+			c.Ops = append(c.Ops, op)
+			continue
+		}
 		w := []int{10, 4, 2, 1, 2, 1}
 		if env.Property == "C03" {
 			w = []int{8, 5, 4, 2, 4, 1}
